@@ -287,8 +287,16 @@ class Project:
             from .inline import inline_new_helpers, inline_new_closures
             ref = reference_table()
             if ref:
+                before = {name: ast.dump(m.tree) for name, m in self.modules.items()} if ref else {}
                 self.inlined_helpers = inline_new_helpers(self, ref)
                 self.inlined_helpers += inline_new_closures(self, ref)
+                if self.inlined_helpers:
+                    # a caller that got a helper spliced back is canonicalised again (its function objects stay the same): aliases introduced by the splice are
+                    # propagated, early returns turned into if / else are hoisted, and - when what results is the reference body up to the names of locals - the
+                    # reference names come back (N5), so that a pure "extract method" leaves nothing behind
+                    for name, m in self.modules.items():
+                        if before.get(name) != ast.dump(m.tree):
+                            m.tree = canonicalise(m.tree, m.relpath)
         except Exception as e:  # pragma: no cover - inlining is an aid, never a reason to fail
             self.parse_errors.append(f"helper inlining skipped: {e!r}")
         self._keywordise_calls()
